@@ -1505,10 +1505,29 @@ int x509_user_notice_from_der(
 		if (ret < 0) error_print();
 		return ret;
 	}
-	if (x509_notice_reference_from_der(notice_ref_org_tag, notice_ref_org, notice_ref_org_len,
-			notice_ref_notice_numbers, notice_ref_notice_numbers_cnt, max_notice_ref_notice_numbers, &d, &dlen) < 0
-		|| x509_display_text_from_der(explicit_text_tag, explicit_text, explicit_text_len, &d, &dlen) < 0
-		|| asn1_length_is_zero(dlen) != 1) {
+	if ((ret = x509_notice_reference_from_der(notice_ref_org_tag, notice_ref_org, notice_ref_org_len,
+			notice_ref_notice_numbers, notice_ref_notice_numbers_cnt, max_notice_ref_notice_numbers, &d, &dlen)) < 0) {
+		error_print();
+		return -1;
+	}
+	if (ret == 0) {
+		// noticeRef absent
+		*notice_ref_org_tag = -1;
+		*notice_ref_org = NULL;
+		*notice_ref_org_len = 0;
+		*notice_ref_notice_numbers_cnt = 0;
+	}
+	if ((ret = x509_display_text_from_der(explicit_text_tag, explicit_text, explicit_text_len, &d, &dlen)) < 0) {
+		error_print();
+		return -1;
+	}
+	if (ret == 0) {
+		// explicitText absent
+		*explicit_text_tag = -1;
+		*explicit_text = NULL;
+		*explicit_text_len = 0;
+	}
+	if (asn1_length_is_zero(dlen) != 1) {
 		error_print();
 		return -1;
 	}
